@@ -35,8 +35,8 @@ def accountedPanicSites : List Nat := [
   177700102617064 /- passage-protocol/src/connection.rs|send_packet|cast|final_buffer.write_varint(packet_lenasVarInt).await?; :: server-built packet far below i32::MAX -/,
   272411565727690 /- passage-protocol/src/connection.rs|send_packet|index|.write(&self.write_buffer[self.write_offset..]) :: write_offset <= write_buffer.len() is the loop invariant (model: WSt, flush_inv) -/,
   121755329535227 /- passage-protocol/src/connection.rs|send_packet|expect|letpacket_size=u64::try_from(final_buffer.len()).expect(""); :: usize always fits u64 -/,
-  194938028455235 /- passage-protocol/src/connection.rs|listen|cast|handshake.protocol_versionasProtocol, :: i32 -> i32 type alias cast -/,
-  186525262346792 /- passage-protocol/src/connection.rs|listen|expect|.expect("") :: SystemTime::now() is after UNIX_EPOCH on any sane clock (not client controlled) -/,
+  136599734658404 /- passage-protocol/src/connection.rs|handle|cast|handshake.protocol_versionasProtocol, :: i32 -> i32 type alias cast (the body of `listen` became `handle` with the missed-keep-alive repair) -/,
+  48971463324760 /- passage-protocol/src/connection.rs|handle|expect|.expect("") :: SystemTime::now() is after UNIX_EPOCH on any sane clock (not client controlled) -/,
   195469996072876 /- passage-protocol/src/crypto/mod.rs|<top>|expect|LazyLock::new(||generate_keypair().expect("")); :: process start-up, not client input -/,
   208066933496905 /- passage-protocol/src/crypto/mod.rs|<top>|expect|LazyLock::new(||encode_public_key(&KEY_PAIR.1).expect("")); :: process start-up, not client input -/,
   214318235484516 /- passage-protocol/src/crypto/mod.rs|generate_keep_alive|cast|TIME_ANCHOR.elapsed().as_millis()asu64 :: elapsed milliseconds truncate after 584 million years -/,
